@@ -31,6 +31,7 @@
 #include <nano/splitter.h>
 #include <nano/tuner.h>
 #include <nano/wlearner.h>
+#include <nano/wlearner/criterion.h>
 
 using namespace nano;
 
@@ -719,7 +720,7 @@ data_t make_data(vh::rng_t& rng, bool classification, bool for_linear)
     }
     for (size_t f = 0; f < nclass; ++f)
     {
-        const auto k = rng.range(2, 3);
+        const auto k = rng.range(2, 6);
         strings_t labels;
         for (int64_t j = 0; j < k; ++j) labels.push_back("c" + std::to_string(j));
         features.push_back(feature_t{"s" + std::to_string(f)}.sclass(labels));
@@ -733,13 +734,17 @@ data_t make_data(vh::rng_t& rng, bool classification, bool for_linear)
     const double noise = rng.range(0, 3) == 0 ? 0.0 : rng.unit() * 0.6;
     std::vector<std::array<double, 3>> comp;
     for (size_t f = 0; f < nscalar; ++f) comp.push_back({static_cast<double>(rng.range(0, 2)), rng.unit() * 2 - 1, rng.unit() * 2 - 1});
+    // the first categorical feature contributes a table of additive effects (non-monotone in the label, some nearly equal: the
+    // k-split table then groups the labels, and differently from fold to fold / round to round)
+    double ctab[8];
+    for (auto& v : ctab) v = rng.range(0, 2) == 0 ? 0.7 : (rng.range(0, 1) ? -0.7 : 0.05 * static_cast<double>(rng.range(-2, 2)));
     vec_t t(static_cast<size_t>(n));
     for (size_t s = 0; s < t.size(); ++s)
     {
         double y = b + noise * (rng.unit() * 2 - 1);
         for (size_t f = 0; f < nscalar; ++f)
             y += comp[f][0] < 1.0 ? comp[f][1] * cols[f][s] : (comp[f][0] < 2.0 ? (cols[f][s] < comp[f][2] ? 0.0 : step * comp[f][1]) : 0.0);
-        if (nclass > 0) y += 0.7 * cols[nscalar][s];
+        if (nclass > 0) y += ctab[static_cast<size_t>(cols[nscalar][s])];
         t[s] = classification ? (y > b ? 1.0 : 0.0) : y;
     }
     const bool constant_target = !classification && (g_force_constant_target || rng.range(0, 15) == 0);
@@ -815,17 +820,19 @@ void fit_gboost(vh::rng_t& rng)
     model.parameter("gboost::batch")      = rng.range(10, 40);
     model.parameter("gboost::seed")       = rng.range(0, 1024);
     // pool of weak learners; stump/hinge/dtree never merge, affine/dense-table do
-    const char* pool[] = {"affine", "stump", "hinge", "dense-table", "dtree"};
+    const char* pool[] = {"affine", "stump", "hinge", "dense-table", "dtree", "ksplit-table", "kbest-table", "dstep-table"};
     rwlearners_t protos;
     std::string  pdesc;
     bool         mergeable = false;
-    const auto   mask      = rng.range(1, 31);
-    for (int i = 0; i < 5; ++i)
+    // half of the fits use the five basic learners, the other half may add the k-split / k-best / discrete-step tables
+    const auto   mask      = rng.range(0, 1) == 0 ? rng.range(1, 31) : rng.range(1, 255);
+    for (int i = 0; i < 8; ++i)
         if (mask & (1 << i))
         {
             protos.emplace_back(wlearner_t::all().get(pool[i]));
+            if (i >= 5 && rng.range(0, 1) == 0) protos.back()->parameter("wlearner::criterion") = rng.range(0, 1) == 0 ? wlearner_criterion::aicc : wlearner_criterion::bic;
             pdesc += std::string(pdesc.empty() ? "" : "+") + pool[i];
-            if (i == 0 || i == 3) mergeable = true;
+            if (i == 0 || i == 3 || i >= 5) mergeable = true;
         }
     model.prototypes(protos);
 
